@@ -117,8 +117,12 @@ pub fn run(rec: &mut Recorder, w: &mut World, tier: &str, seed: u64) {
             let want = seg_match(pat, key);
             let nq = key.split('?').next().unwrap().to_string();
             let want5 = seg_match(pat, &nq);
+            // the colon syntax means nothing to the brace matchers: there ":name" is literal text
+            let pat_lit: Vec<Seg> = pat.iter().map(|s| if let Seg::Named(n) = s { Seg::Lit(format!(":{}", n)) } else { s.clone() }).collect();
+            let want_lit = seg_match(&pat_lit, key);
             let checks: Vec<(&str, String, String)> = vec![
                 ("keyMatch2", p2.clone(), bool_s(want.is_some()).to_string()),
+                ("keyMatch3", p2.clone(), bool_s(want_lit.is_some()).to_string()),
                 ("keyMatch3", p3.clone(), bool_s(want.is_some()).to_string()),
                 ("keyMatch5", p3.clone(), bool_s(want5.is_some()).to_string()),
                 ("keyMatch4", p3.clone(), bool_s(want.as_ref().map(|b| b.iter().all(|(n1, v1)| b.iter().all(|(n2, v2)| n1 != n2 || v1 == v2))).unwrap_or(false)).to_string()),
